@@ -1,5 +1,9 @@
 import XpmVerif.Proofs.CacheCoherentAcyclic
 /-! Cache coherence (C01), stage 2: every graph, cycles included (DESIGN.md Appendix G).
+    `Edge g n m` — the value of the stream of `n` depends on `m` (`relRefs`: a *value edge* — producing task,
+    kept configuration of an argument value, examined in every context — or a *default edge* to a
+    configuration of a declared default, examined by `_is_default` in some contexts only).
+    `DefaultsClosed g` — well-formedness of the default objects: a default edge is never on a cycle.
     (1) the traversal stack is a chain of hash-relevant edges (`StackOK`);
     (2) from a node on a cycle the traversal emits a reference to the root: `escAt ≥ 1` (`escAt_onCycle`);
     (3) a node on no cycle has the same specification value in every context (`rawAt_ctx`);
@@ -10,8 +14,9 @@ open List
 
 /-! ### the hash-relevant edge relation, paths, cycles -/
 
-/-- `n → m`: hashing `n` descends into `m` (or emits a cycle reference to it). -/
-def Edge (g : Graph) (n m : Nat) : Prop := m ∈ nodeRefs g.mt n (g.node n)
+/-- `n → m`: the stream hashed for `n` depends on `m` — hashing `n` descends into `m`, emits a cycle
+    reference to it, or compares its identifier with a value's (`m` a configuration of a declared default). -/
+def Edge (g : Graph) (n m : Nat) : Prop := m ∈ relRefs g.mt n (g.node n)
 
 /-- `Path g x [b₁,…,bₖ] y`: `x → b₁ → … → bₖ → y` (at least one edge). -/
 inductive Path (g : Graph) : Nat → List Nat → Nat → Prop
@@ -34,7 +39,13 @@ theorem Edge.lt {g : Graph} {n m : Nat} (h : Edge g n m) : n < g.size := by
   rename_i hn
   unfold Edge at h
   rw [node_default g (Nat.le_of_not_lt hn)] at h
-  simp [nodeRefs] at h
+  simp [relRefs, valueRefs, defaultRefs, taskRefs] at h
+
+theorem allRefs_lt {g : Graph} {n m : Nat} (h : m ∈ allRefs g.mt n (g.node n)) : n < g.size := by
+  false_or_by_contra
+  rename_i hn
+  rw [node_default g (Nat.le_of_not_lt hn)] at h
+  simp [allRefs, metaRefs, relRefs, valueRefs, defaultRefs, taskRefs] at h
 
 theorem Path.lt {g : Graph} {x y : Nat} {p : List Nat} (h : Path g x p y) : x < g.size := by
   cases h with
@@ -115,7 +126,7 @@ theorem onCycle_of_reach {g : Graph} {n m : Nat} {p : List Nat} (h : Reach g n m
   · exact ⟨_, hq.trans hp⟩
 
 theorem SameContent.edge {g g' : Graph} (h : SameContent g g') (n m : Nat) : Edge g' n m ↔ Edge g n m := by
-  unfold Edge; rw [h.nodeRefs]
+  unfold Edge; rw [h.relRefs]
 
 theorem SameContent.path {g g' : Graph} (h : SameContent g g') {x y : Nat} {p : List Nat} (hp : Path g' x p y) : Path g x p y := by
   induction hp with
@@ -127,6 +138,90 @@ theorem SameContent.symm {g g' : Graph} (h : SameContent g g') : SameContent g' 
 
 theorem SameContent.onCycle {g g' : Graph} (h : SameContent g g') (n : Nat) : OnCycle g' n ↔ OnCycle g n :=
   ⟨fun ⟨p, hp⟩ => ⟨p, h.path hp⟩, fun ⟨p, hp⟩ => ⟨p, h.symm.path hp⟩⟩
+
+theorem Reach.of_path {g : Graph} {x y : Nat} {p : List Nat} (h : Path g x p y) : Reach g x y := Or.inr ⟨p, h⟩
+
+theorem Reach.trans {g : Graph} {x y z : Nat} (h : Reach g x y) (h' : Reach g y z) : Reach g x z := by
+  rcases h with rfl | ⟨p, hp⟩
+  · exact h'
+  · rcases h' with rfl | ⟨q, hq⟩
+    · exact Or.inr ⟨p, hp⟩
+    · exact Or.inr ⟨_, hp.trans hq⟩
+
+theorem Reach.snoc {g : Graph} {x y z : Nat} (h : Reach g x y) (e : Edge g y z) : Reach g x z :=
+  h.trans (Or.inr ⟨[], .single e⟩)
+
+/-- **well-formedness of the default objects**: a configuration that occurs in the declared default of an
+    argument of `n` (and is not also one of the values of `n`) does not reach `n` back through
+    hash-relevant references.  True of the real defaults: they are created in the class body — before any
+    instance of the class exists — and never mutated, so they only refer to older objects.  (If the default
+    object itself were being hashed while it is examined, the real code would fail on the `assert` of
+    `ConfigPath.push`.)  Vacuous when no default contains a configuration. -/
+def DefaultsClosed (g : Graph) : Prop :=
+  ∀ n d, d ∈ defaultRefs g.mt (g.node n) → d ∉ valueRefs g.mt n (g.node n) → ¬ Reach g d n
+
+/-- a sufficient condition that can be checked by evaluation on a concrete graph: a rank function that is
+    positive on the default objects and strictly decreases — staying positive — along every reference that
+    leaves a node of positive rank (`DefaultsClosed.of_rank`). -/
+structure DefaultsRanked (g : Graph) (rank : Nat → Nat) : Prop where
+  pos : ∀ n, n < g.size → ∀ d, d ∈ defaultRefs g.mt (g.node n) → 1 ≤ rank d
+  decr : ∀ n, n < g.size → 1 ≤ rank n → ∀ m, m ∈ relRefs g.mt n (g.node n) → 1 ≤ rank m ∧ rank m < rank n
+
+theorem DefaultsRanked.path {g : Graph} {rank : Nat → Nat} (h : DefaultsRanked g rank) {x y : Nat} {p : List Nat}
+    (hp : Path g x p y) (hx : 1 ≤ rank x) : 1 ≤ rank y ∧ rank y < rank x := by
+  induction hp with
+  | single e => exact h.decr _ e.lt hx _ e
+  | cons e _ ih =>
+    have h1 := h.decr _ e.lt hx _ e
+    have h2 := ih h1.1
+    exact ⟨h2.1, by omega⟩
+
+theorem DefaultsClosed.of_rank {g : Graph} {rank : Nat → Nat} (h : DefaultsRanked g rank) : DefaultsClosed g := by
+  intro n d hd _ hr
+  have hn : n < g.size := Edge.lt (g := g) (m := d) (defaultRefs_sub_relRefs hd)
+  have hpos := h.pos n hn d hd
+  rcases hr with rfl | ⟨p, hp⟩
+  · have := h.decr d hn hpos d (defaultRefs_sub_relRefs hd); omega
+  · have h1 := h.path hp hpos
+    have := h.decr n hn h1.1 d (defaultRefs_sub_relRefs hd)
+    omega
+
+theorem DefaultsClosed.of_sameContent {g g' : Graph} (h : SameContent g g') (hd : DefaultsClosed g) : DefaultsClosed g' := by
+  intro n d h1 h2 hr
+  rw [h.defaultRefs] at h1
+  rw [h.valueRefs] at h2
+  refine hd n d h1 h2 ?_
+  rcases hr with rfl | ⟨p, hp⟩
+  · exact Or.inl rfl
+  · exact Or.inr ⟨p, h.path hp⟩
+
+/-- no default contains a configuration: the hypothesis is vacuous. -/
+theorem DefaultsClosed.of_no_default_refs {g : Graph} (h : ∀ n, defaultRefs g.mt (g.node n) = []) : DefaultsClosed g := by
+  intro n d hd; rw [h n] at hd; cases hd
+
+/-- decidable form of "no default contains a configuration". -/
+def noDefaultRefsB (g : Graph) : Bool := (List.range g.size).all (fun n => (defaultRefs g.mt (g.node n)).isEmpty)
+
+theorem DefaultsClosed.of_noDefaultRefsB {g : Graph} (h : noDefaultRefsB g = true) : DefaultsClosed g := by
+  apply DefaultsClosed.of_no_default_refs
+  intro n
+  by_cases hn : n < g.size
+  · simp only [noDefaultRefsB, all_eq_true, mem_range, isEmpty_iff] at h
+    exact h n hn
+  · rw [node_default g (Nat.le_of_not_lt hn)]; rfl
+
+/-- decidable form of `DefaultsRanked`. -/
+def defaultsRankedB (g : Graph) (rank : Nat → Nat) : Bool :=
+  (List.range g.size).all (fun n =>
+    (defaultRefs g.mt (g.node n)).all (fun d => decide (1 ≤ rank d)) &&
+    (decide (rank n = 0) || (relRefs g.mt n (g.node n)).all (fun m => decide (1 ≤ rank m ∧ rank m < rank n))))
+
+theorem DefaultsRanked.of_B {g : Graph} {rank : Nat → Nat} (h : defaultsRankedB g rank = true) : DefaultsRanked g rank := by
+  simp only [defaultsRankedB, all_eq_true, mem_range, Bool.and_eq_true, Bool.or_eq_true, decide_eq_true_eq] at h
+  refine ⟨fun n hn d hd => (h n hn).1 d hd, fun n hn hr m hm => ?_⟩
+  rcases (h n hn).2 with h0 | h1
+  · omega
+  · exact h1 m hm
 
 /-! ### fuel: `g.size + 1` is always enough -/
 
@@ -176,6 +271,58 @@ theorem FuelOK.root (g : Graph) (n : Nat) : FuelOK g (g.size + 1) [] n := by
   · intro x hx; cases hx
   · simp
 
+/-! ### `DefaultsClosed` is decidable by evaluation -/
+
+/-- the nodes reachable from `x` by at most `k` hash-relevant references (with repetitions). -/
+def reachK (g : Graph) : Nat → Nat → List Nat
+  | 0, x => [x]
+  | k + 1, x => x :: ((relRefs g.mt x (g.node x)).map (reachK g k)).flatten
+
+theorem reachK_self (g : Graph) (k x : Nat) : x ∈ reachK g k x := by
+  cases k <;> simp [reachK]
+
+theorem reachK_of_path {g : Graph} {x y : Nat} {p : List Nat} (hp : Path g x p y) :
+    ∀ k, p.length ≤ k → y ∈ reachK g (k + 1) x := by
+  induction hp with
+  | @single x y e =>
+    intro k _
+    simp only [reachK, mem_cons, mem_flatten, mem_map]
+    exact .inr ⟨_, ⟨y, e, rfl⟩, reachK_self g k y⟩
+  | @cons x b y p e _ ih =>
+    intro k hk
+    cases k with
+    | zero => simp at hk
+    | succ k =>
+      simp only [reachK, mem_cons, mem_flatten, mem_map]
+      exact .inr ⟨_, ⟨b, e, rfl⟩, ih k (by simpa using hk)⟩
+
+/-- exact Boolean form of `DefaultsClosed` (for concrete graphs; exponential in the worst case). -/
+def defaultsClosedB (g : Graph) : Bool :=
+  (List.range g.size).all (fun n => (defaultRefs g.mt (g.node n)).all (fun d =>
+    (valueRefs g.mt n (g.node n)).contains d || !(reachK g (g.size + 1) d).contains n))
+
+theorem DefaultsClosed.of_B {g : Graph} (h : defaultsClosedB g = true) : DefaultsClosed g := by
+  intro n d hd hv hr
+  have hn : n < g.size := Edge.lt (g := g) (m := d) (defaultRefs_sub_relRefs hd)
+  simp only [defaultsClosedB, all_eq_true, mem_range, Bool.or_eq_true, contains_iff_mem, Bool.not_eq_true',
+    ← Bool.not_eq_true] at h
+  rcases h n hn d hd with h | h
+  · exact hv h
+  · apply h
+    rcases hr with rfl | ⟨p0, hp0⟩
+    · exact reachK_self g _ _
+    · obtain ⟨p, hp, hnd, hdp, _⟩ := hp0.simple
+      apply reachK_of_path hp
+      have hlen : (d :: p).length ≤ g.size := by
+        apply nodup_length_le _ _ (nodup_cons.mpr ⟨hdp, hnd⟩)
+        intro x hx
+        rcases mem_cons.mp hx with rfl | hx
+        · exact hp.lt
+        · obtain ⟨l1, l2, rfl⟩ := append_of_mem hx
+          exact hp.suffix.lt
+      simp only [length_cons] at hlen
+      omega
+
 /-! ### (3) context independence -/
 
 theorem relIndex_eq_none_iff {stack : List Nat} {m : Nat} : relIndex stack m = none ↔ m ∉ stack := by
@@ -201,13 +348,14 @@ theorem rawAt_ctx {D : Type} (hc : HC D) (g : Graph) (S S' : List Nat) :
     | succ f' =>
       simp only [rawAt]
       congr 1
-      apply nodeStream_congr_refs
+      apply nodeStream_congr_ctx
       intro m hm
       have e : Edge g n m := hm
       by_cases hp : m ∈ n :: P
       · rw [← cons_append, ← cons_append, relIndex_append_of_mem hp, relIndex_append_of_mem hp]
         obtain ⟨k, hk, _⟩ := relIndex_some hp
-        simp only [hk]
+        refine ⟨rfl, fun hnone => ?_⟩
+        rw [hk] at hnone; cases hnone
       · have hS := hr m (Reach.of_edge e (Reach.refl g m))
         have h1 : m ∉ n :: (P ++ S) := by
           rw [← cons_append]; intro hmem
@@ -220,7 +368,7 @@ theorem rawAt_ctx {D : Type} (hc : HC D) (g : Graph) (S S' : List Nat) :
           · exact hp h
           · exact hS.2 h
         rw [relIndex_none h1, relIndex_none h2]
-        simp only
+        refine ⟨rfl, fun _ => ?_⟩
         have := ih f' (n :: P) m (fun m' hm' => hr m' (Reach.of_edge e hm')) (h.child e h1) (h'.child e h2)
         rw [cons_append, cons_append] at this
         rw [this]
@@ -270,35 +418,52 @@ theorem computeAt_eq_rawAt {D : Type} (hc : HC D) (g : Graph) (c : Caches D) (hi
       rw [h1, rawAt_of_not_onCycle hc g (f + 1) stack n (h2 rfl) hs hf]
     · simp only [rawAt]
       congr 1
-      apply nodeStream_congr_refs
+      apply nodeStream_congr_ctx
       intro m hm
       have e : Edge g n m := hm
-      cases hk : relIndex (n :: stack) m with
-      | some k => rfl
-      | none =>
-        simp only
-        rw [ih (n :: stack) m (hs.child e) (hf.child e (relIndex_eq_none_iff.mp hk))]
+      refine ⟨rfl, fun hk => ?_⟩
+      rw [ih (n :: stack) m (hs.child e) (hf.child e (relIndex_eq_none_iff.mp hk))]
 
 /-! ### (2) a traversal started on a cycle references its root -/
 
-theorem escAt_path {D : Type} (g : Graph) (c : Caches D) {x y : Nat} {p : List Nat} (hp : Path g x p y) :
-    ∀ (stack : List Nat) (k f : Nat), (∀ b, b ∈ p → b ∉ x :: stack) → p.Nodup →
+/-- the comparison made under a stack never finds a member of the stack equal to a default. -/
+theorem ctxEq_onStack (stack : List Nat) (cfg : Nat → List Nat) (d v : Nat) (h : ctxEq stack cfg d v = true) :
+    (relIndex stack v).isSome = false := by
+  unfold ctxEq at h
+  cases hk : relIndex stack v <;> simp_all
+
+/-- a value edge is followed in every context. -/
+theorem valueRef_mem_nodeRefs {g : Graph} {x y : Nat} (stack : List Nat) (cfg : Nat → List Nat)
+    (h : y ∈ valueRefs g.mt x (g.node x)) :
+    y ∈ nodeRefs (fun m => (relIndex stack m).isSome) (ctxEq stack cfg) g.mt x (g.node x) :=
+  valueRefs_sub_nodeRefs (ctxEq_onStack stack cfg) h
+
+/-- an edge that lies on a cycle is a value edge (`DefaultsClosed`). -/
+theorem Edge.value_of_back {g : Graph} (hdc : DefaultsClosed g) {x y : Nat} (e : Edge g x y) (hr : Reach g y x) :
+    y ∈ valueRefs g.mt x (g.node x) := by
+  false_or_by_contra
+  rename_i hv
+  rcases mem_append.1 e with h | h
+  · exact hv h
+  · exact hdc x y h hv hr
+
+theorem escAt_path {D : Type} (hc : HC D) (g : Graph) (c : Caches D) (hdc : DefaultsClosed g)
+    {x y : Nat} {p : List Nat} (hp : Path g x p y) :
+    ∀ (stack : List Nat) (k f : Nat), Reach g y x → (∀ b, b ∈ p → b ∉ x :: stack) → p.Nodup →
       relIndex (x :: stack) y = some k → (∀ b, b ∈ x :: p → cacheHit g c b = none) → p.length < f →
-      k ≤ escAt g c f stack x := by
+      k ≤ escAt hc g c f stack x := by
   induction hp with
   | @single x y e =>
-    intro stack k f _ _ hk hc hf
+    intro stack k f hback _ _ hk hch hf
     cases f with
     | zero => omega
     | succ f =>
-      simp only [escAt, hc x (by simp)]
-      have := foldl_max_ge_mem (fun m => match relIndex (x :: stack) m with
-          | some k => k
-          | none => escAt g c f (x :: stack) m - 1) (nodeRefs g.mt x (g.node x)) 0 e
-      simp only [hk] at this
-      exact this
-  | @cons x b y p e _ ih =>
-    intro stack k f hav hnd hk hc hf
+      simp only [escAt, hch x (by simp)]
+      refine Nat.le_trans ?_ (foldl_max_ge_mem _ _ 0
+        (valueRef_mem_nodeRefs (x :: stack) _ (e.value_of_back hdc hback)))
+      simp only [hk]; exact Nat.le_refl _
+  | @cons x b y p e hp' ih =>
+    intro stack k f hback hav hnd hk hch hf
     cases f with
     | zero => omega
     | succ f =>
@@ -307,24 +472,23 @@ theorem escAt_path {D : Type} (g : Graph) (c : Caches D) {x y : Nat} {p : List N
       have hby : b ≠ y := fun h => hb (h ▸ hy)
       have hk' : relIndex (b :: x :: stack) y = some (k + 1) := by
         rw [relIndex, if_neg hby, hk]; rfl
-      have := ih (x :: stack) (k + 1) f
+      have := ih (x :: stack) (k + 1) f (hback.snoc e)
         (by
           intro b' hb' hmem
           rcases mem_cons.mp hmem with h | h
           · subst h; exact (nodup_cons.mp hnd).1 hb'
           · exact hav b' (by simp [hb']) h)
-        (nodup_cons.mp hnd).2 hk' (fun b' hb' => hc b' (by simp [hb'])) (by simp at hf; omega)
-      simp only [escAt, hc x (by simp)]
-      have h2 := foldl_max_ge_mem (fun m => match relIndex (x :: stack) m with
-          | some k => k
-          | none => escAt g c f (x :: stack) m - 1) (nodeRefs g.mt x (g.node x)) 0 e
-      simp only [relIndex_none hb] at h2
-      exact Nat.le_trans (by omega) h2
+        (nodup_cons.mp hnd).2 hk' (fun b' hb' => hch b' (by simp [hb'])) (by simp at hf; omega)
+      simp only [escAt, hch x (by simp)]
+      refine Nat.le_trans ?_ (foldl_max_ge_mem _ _ 0
+        (valueRef_mem_nodeRefs (x :: stack) _ (e.value_of_back hdc ((Reach.of_path hp').trans hback))))
+      simp only [relIndex_none hb]; omega
 
 /-- **cycle detection**: if `n` lies on a cycle, the loop flag computed by `reqRaw` is set
     (the cache invariant guarantees that no node of the cycle is skipped). -/
-theorem escAt_onCycle {D : Type} (hc : HC D) (g : Graph) (c : Caches D) (hinv : CycleInv hc g c.raw) (n : Nat)
-    (hn : OnCycle g n) : 1 ≤ escAt g c (g.size + 1) [] n := by
+theorem escAt_onCycle {D : Type} (hc : HC D) (g : Graph) (hdc : DefaultsClosed g) (c : Caches D)
+    (hinv : CycleInv hc g c.raw) (n : Nat)
+    (hn : OnCycle g n) : 1 ≤ escAt hc g c (g.size + 1) [] n := by
   obtain ⟨p0, hp0⟩ := hn
   obtain ⟨p, hp, hnd, hnp, _⟩ := hp0.simple
   have hmiss : ∀ b, OnCycle g b → cacheHit g c b = none := by
@@ -332,7 +496,8 @@ theorem escAt_onCycle {D : Type} (hc : HC D) (g : Graph) (c : Caches D) (hinv : 
     cases h : cacheHit g c b with
     | none => rfl
     | some d => exact absurd hb ((hinv b d false (cacheHit_some h)).2 rfl)
-  apply escAt_path g c hp [] 1 (g.size + 1)
+  apply escAt_path hc g c hdc hp [] 1 (g.size + 1)
+  · exact Reach.refl g n
   · intro b hb hmem
     simp only [mem_singleton] at hmem
     subst hmem; exact hnp hb
@@ -354,7 +519,8 @@ theorem escAt_onCycle {D : Type} (hc : HC D) (g : Graph) (c : Caches D) (hinv : 
 
 /-! ### the general theorem -/
 
-theorem rawSound_general {D : Type} (hc : HC D) (g0 : Graph) : RawSound hc g0 (CycleInv hc g0) := by
+theorem rawSound_general {D : Type} (hc : HC D) (g0 : Graph) (hdc : DefaultsClosed g0) :
+    RawSound hc g0 (CycleInv hc g0) := by
   have tr : ∀ (s : St D), SameContent g0 s.g → CycleInv hc g0 s.c.raw → CycleInv hc s.g s.c.raw := by
     intro s hg hJ m d b h
     obtain ⟨h1, h2⟩ := hJ m d b h
@@ -371,17 +537,17 @@ theorem rawSound_general {D : Type} (hc : HC D) (g0 : Graph) : RawSound hc g0 (C
       cases h
       refine ⟨by rw [hm], ?_⟩
       intro hflag hcyc
-      have := escAt_onCycle hc s.g s.c (tr s hg hJ) n ((hg.onCycle n).mpr (hm ▸ hcyc))
+      have := escAt_onCycle hc s.g (hdc.of_sameContent hg) s.c (tr s hg hJ) n ((hg.onCycle n).mpr (hm ▸ hcyc))
       simp only [decide_eq_false_iff_not] at hflag
       exact hflag this
     · exact hJ m d b h
 
 /-- **stage 2**: on every graph, every answer of a query-only history started with empty caches is the
     specification's answer. -/
-theorem runOps_general {D : Type} (hc : HC D) (ho : LeOrder hc) (g : Graph)
+theorem runOps_general {D : Type} (hc : HC D) (ho : LeOrder hc) (g : Graph) (hdc : DefaultsClosed g)
     (ops : List Op) (hq : ∀ o, o ∈ ops → o.isQuery = true) :
     (runOps hc true { g := g, c := Caches.empty } ops).2 = ops.map (specOut hc g) :=
-  runOps_sound hc ho g _ (rawSound_general hc g) ops _ hq (good_empty hc g _ (fun _ _ _ h => by cases h))
+  runOps_sound hc ho g _ (rawSound_general hc g hdc) ops _ hq (good_empty hc g _ (fun _ _ _ h => by cases h))
 
 /-- the invariant holds in every state reached by a query-only history. -/
 theorem runOps_good {D : Type} (hc : HC D) (ho : LeOrder hc) (g0 : Graph) (J : (Nat → Option (D × Bool)) → Prop)
@@ -452,7 +618,7 @@ def exDag : Graph :=
 theorem exDag_ranked : Ranked exDag (fun n => 4 - n) := by
   refine ⟨?_, fun n => by simp only [exDag, Graph.size, length_cons, length_nil]; omega⟩
   intro n m h
-  have hn : n < 4 := Edge.lt h
+  have hn : n < 4 := allRefs_lt h
   match n, hn with
   | 0, _ => revert m; decide
   | 1, _ => revert m; decide
